@@ -18,9 +18,15 @@ use gimli::read::{EvaluationResult, EvaluationStorage, Location, Operation, Piec
 use gimli::{DieReference, EndianSlice, Evaluation, Expression, RunTimeEndian, StoreOnHeap, Value, ValueType};
 use serde_json::{json, Value as J};
 
-/// Genuine findings on the unchanged tree that are skipped locally (exact signatures), so
-/// that the rest of the check stays strict.  See REPORT.md.
-const SKIP_KNOWN: &[&str] = &[];
+/// Genuine findings on the unchanged tree that are skipped locally, so that the rest of the
+/// check stays strict: a run in which the *model* flags one of these exact situations
+/// (`Outcome::known`) has its mismatches counted (`skipped_known.*`) instead of reported.
+/// Set to `false` once the defect is repaired in the tree.  See REPORT.md.
+///  1. `generic_shift_count_unreduced`: Value::shift_length does not reduce a generic
+///     shift count modulo the address size.
+///  2. `convert_negative_integer_to_float`: Value::convert of a negative signed integer
+///     to F32/F64 goes through u64.
+const SKIP_KNOWN_FINDINGS: bool = true;
 
 pub fn info() -> PropInfo {
     PropInfo {
@@ -449,17 +455,16 @@ fn compare(ctx: &mut Ctx, tag: &str, code: &[u8], cfg: &Config, script: &gen::Sc
         })
     };
     let secondary = m.tainted.is_some();
+    let known = if SKIP_KNOWN_FINDINGS { m.known } else { None };
     let mut ok = true;
     let mut fail = |ctx: &mut Ctx, sig: &str, what: String| {
         if secondary {
             ctx.obs(&format!("secondary.mismatch.{sig}"));
+        } else if let Some(k) = known {
+            ctx.obs(&format!("skipped_known.{k}"));
         } else {
             let full = format!("{tag}.{sig}");
-            if SKIP_KNOWN.contains(&full.as_str()) {
-                ctx.obs(&format!("skipped_known.{full}"));
-            } else {
-                ctx.fail(&full, &format!("{full}: {what}"), &input);
-            }
+            ctx.fail(&full, &format!("{full}: {what}"), &input);
         }
     };
     if matches!(g.end, GEnd::Runaway) {
